@@ -2535,6 +2535,10 @@ class NetCDFWrite(IOWrite):
             # Add ncvar to the global external_variables attribute
             self._set_external_variables(ncvar)
 
+            # The name is in use, although no netCDF variable is
+            # created for it in this file
+            g["ncvar_names"].add(ncvar)
+
             if (
                 g["external_file"] is not None
                 and self.implementation.get_data(cell_measure, None)
